@@ -18,7 +18,7 @@ ASSUMPTIONS = ['keys do not hold both quote kinds or brackets (C09, finding F8a)
 
 STR_LEAVES = ['stra\u00dfe', 'Ma\u00dfe', '\u03bf\u03b4\u03cc\u03c2', '\u039f\u0394\u039f\u03a3', 'somewhere', 'Somewhere here', 'abc', 'ABC', 'a', 'b', 'ab', 'long string somewhere', '', 'x y', '10', '5', '1.5', 'None', 'True', 'a1b2', 'root']
 NUM_LEAVES = [0, 1, 2, 5, 10, 1.5, 5.0, True, False, -1, 1234]
-KEYS = ['a', 'b', 'ab', 'Key', 'some key', 'k5', '5', 'None', 1, 5, 10, 1.5, None, True, 'root', 'x', "it's", 'say "a"']
+KEYS = ['a', 'b', 'ab', 'Key', 'some key', 'k5', '5', 'None', 1, 5, 10, 1.5, None, True, 'root', 'x', "it's", 'say "a"', 'C:\\tmp', 'a\nb', 'tab\there', 'back\\a']
 PATTERNS = ['a', 'some', r'\d+', 'a.c', '^a', 'b$', '[a-c]+', r'so?me', 'x y', r'\w+ \w+', '^$', r'[0-9]\.[0-9]', 'here$', r'k\d', r"\['a"]
 
 
@@ -171,6 +171,16 @@ def gen_cases(ctx, n):
     out = []
     for i in range(n):
         obj = (gs if i % 6 == 0 else g).container() if i % 15 else (g.scalar())
+        if i % 8 == 3:
+            # many containers of one kind in one object (per-search counters, e.g. the warning counter for sets): records with a set / frozenset / tuple each
+            m = ctx.rng.randint(9, 16)
+            pool = ctx.rng.sample(STR_LEAVES + NUM_LEAVES, 6)
+            mk = ctx.rng.choice([set, frozenset, tuple, list])
+            def tags():
+                return mk(ctx.rng.sample(pool, ctx.rng.randint(1, 3)))
+            shape = ctx.rng.randrange(3)
+            obj = ([{'id': j, 'tags': tags()} for j in range(m)] if shape == 0 else
+                   {'k%d' % j: tags() for j in range(m)} if shape == 1 else [tags() for j in range(m)])
         locs = locations(obj)
         leaves = [v for (_, _, v, _, _) in locs if not isinstance(v, (dict, list, tuple, set, frozenset))]
         keys_ = [k for (_, ks, _, via, _) in locs if via for k in ks[-1:]]
